@@ -6,11 +6,14 @@ import ufl.classes as C
 
 def atoms_hook(w, e, comp, env):
     if isinstance(e, C.Coefficient):
+        if e.is_cellwise_constant():
+            w.spatial_const.add(f"w{e.count()}")
         return w.symbol(f"w{e.count()}", comp)
     if isinstance(e, C.Argument):
         p = e.part()
         return w.symbol(f"v{e.number()}" + (f"p{p}" if p is not None else ""), comp)
     if isinstance(e, C.Constant):
+        w.spatial_const.add(f"c{e.count()}")
         return w.symbol(f"c{e.count()}", comp)
     if isinstance(e, C.SpatialCoordinate):
         return w.symbol("x", comp, real=True)
